@@ -32,9 +32,11 @@ from vlog.parser import VlogUnsupported, VlogSyntaxError, parse
 PROP = 'C03'
 
 
-def report_obligations(p, d, prefix=''):
+def report_obligations(p, d, prefix='', ignore=None):
     seen = set()
     for name, ok, detail in d.obligations:
+        if not ok and ignore is not None and ignore(name):
+            continue
         if ok:
             p.res['obligations'] += 1
             p.res['discharged'] += 1
@@ -47,7 +49,7 @@ def report_obligations(p, d, prefix=''):
             p.structural(prefix + name, False, detail=detail)
 
 
-def elaborate_text(p, text, label='', blackboxes=()):
+def elaborate_text(p, text, label='', blackboxes=(), ignore=None):
     try:
         d = elab.load(text, blackboxes=blackboxes)
     except VlogSyntaxError as e:
@@ -57,7 +59,7 @@ def elaborate_text(p, text, label='', blackboxes=()):
         p.inconclusive('%selaboration' % label, 'front end: %s' % e)
         return None
     p.structural('%semitted text parses' % label, True)
-    report_obligations(p, d, label)
+    report_obligations(p, d, label, ignore)
     if d.fatal:
         # a fatal resolution problem that is itself an obligation failure has been reported above
         if not any(not ok for _, ok, _ in d.obligations):
@@ -219,6 +221,87 @@ def pathname_task(p, cfg, rec):
 
 
 # ---------------------------------------------------------------------------------------------------
+def dangling_task(p, cfg, rec):
+    """designs under construction: nets that no leaf drives and/or no leaf reads, hooked to ports of structural children only.
+    The circuit is incomplete (that is the user's business, so 'has a driver' is not demanded for the nets the circuit itself
+    leaves undriven), but the text must still be closed: every net named by an instance statement is declared, with the width
+    of the port it connects"""
+    w, shape = cfg['w'], cfg['shape']
+    undriven = set()
+    with quiet():
+        s = py4hw.HWSystem()
+        a, r = s.wire('a', w), s.wire('r', w)
+
+        def stage(name, parent, i, o, dbg_out=None, dbg_in=None, drive=False, read=False):
+            def body(b):
+                Not(b, 'inv', i, o)
+                if drive and dbg_out is not None:
+                    Buf(b, 'drv', i, dbg_out)
+                if read and dbg_in is not None:
+                    Buf(b, 'rd', dbg_in, b.wire('seen', w))
+            ins = {'i': i}
+            outs = {'o': o}
+            if dbg_in is not None:
+                ins['dbg_in'] = dbg_in
+            if dbg_out is not None:
+                outs['dbg'] = dbg_out
+            return D.Box(parent, name, ins, outs, body)
+
+        def top(b):
+            m = b.wire('m', w)
+            if shape == 'out-unconnected-inside':
+                d0, d1 = b.wire('dbg0', w), b.wire('dbg1', w)
+                stage('s0', b, a, m, dbg_out=d0)
+                stage('s1', b, m, r, dbg_out=d1)
+                undriven.update(('dbg0', 'dbg1', 'dbg'))
+            elif shape == 'undriven-to-unread':
+                d0 = b.wire('link', w)
+                stage('s0', b, a, m, dbg_out=d0)
+                stage('s1', b, m, r, dbg_in=d0)
+                undriven.update(('link', 'dbg', 'dbg_in'))
+            elif shape == 'driven-to-unread':
+                d0 = b.wire('link', w)
+                stage('s0', b, a, m, dbg_out=d0, drive=True)
+                stage('s1', b, m, r, dbg_in=d0)
+            elif shape == 'undriven-to-read':
+                d0 = b.wire('link', w)
+                stage('s0', b, a, m, dbg_out=d0)
+                stage('s1', b, m, r, dbg_in=d0, read=True)
+                undriven.update(('link', 'dbg', 'dbg_in'))
+            elif shape == 'driven-unconnected-outside':
+                d0 = b.wire('spare', w)
+                stage('s0', b, a, m, dbg_out=d0, drive=True)
+                stage('s1', b, m, r)
+            elif shape == 'two-levels':
+                d0 = b.wire('dbg0', w)
+
+                def mid(b2):
+                    stage('leafbox', b2, a, m, dbg_out=d0)
+                D.Box(b, 'mid', {'i': a}, {'o': m, 'dbg': d0}, mid)
+                stage('s1', b, m, r)
+                undriven.update(('dbg0', 'dbg'))
+        try:
+            box = D.Box(s, 'top', {'a': a}, {'r': r}, top)
+        except Exception:
+            p.res['refused'] += 1
+            return
+    text, exc = generate(box)
+    if text is None:
+        p.res['refused'] += 1
+        p.note('%s: generator refused: %r' % (p.config, exc))
+        return
+    p.res['programs'] += 1
+
+    def ignore(name):
+        # 'wire <path> has a driver' / 'exactly one driver' for nets the circuit itself leaves undriven
+        if 'driver' not in name:
+            return False
+        toks = name.replace('.', ' ').split()
+        return any(t in undriven or (t.startswith('w_') and t[2:] in undriven) for t in toks)
+    elaborate_text(p, text, ignore=ignore)
+
+
+# ---------------------------------------------------------------------------------------------------
 def sig_of(mod):
     return [(q.direction, q.name, None if q.rng is None else (elab.const_eval(q.rng[0]), elab.const_eval(q.rng[1]))) for q in mod.ports]
 
@@ -356,6 +439,9 @@ def tasks_for(tier, seed):
     for iname in ('stage', 'x', 'i_x', 'w_x'):
         t.append(('naming reg port_in=a wire=t instance=%s port_out=o with a sibling instance i_%s' % (iname, iname), naming_task,
                   {'names': ('a', 't', iname, 'o'), 'seq': True, 'twin': True}))
+    for shape in ('out-unconnected-inside', 'undriven-to-unread', 'driven-to-unread', 'undriven-to-read', 'driven-unconnected-outside', 'two-levels'):
+        for w in (1, 8):
+            t.append(('circuit under construction: %s, width %d' % (shape, w), dangling_task, {'shape': shape, 'w': w}))
     for depth in (0, 1, 2):
         for value in (3, 200):
             t.append(('module parameter %d handed down through %d structural levels' % (value, depth), param_task, {'depth': depth, 'value': value}))
